@@ -76,9 +76,11 @@ structure Rev (m m' : Mach) (seg : List RStep) : Prop where
   ctx : m'.ctx = m.ctx
   wf : WF m → WF m'
   fr : Fr m m'
+  /-- inside a meta block no primitive writes a variable -/
+  heapMeta : m.ctx.mode = .metaEval → m'.heap = m.heap
 
 theorem Rev.refl (m : Mach) : Rev m m [] :=
-  ⟨fun _ h => by simpa using h, id, by simp, rfl, rfl, id, Fr.refl m⟩
+  ⟨fun _ h => by simpa using h, id, by simp, rfl, rfl, id, Fr.refl m, fun _ => rfl⟩
 
 theorem Rev.trans {m m1 m2 : Mach} {s1 s2 : List RStep} (h1 : Rev m m1 s1) (h2 : Rev m1 m2 s2) :
     Rev m m2 (s2 ++ s1) where
@@ -92,11 +94,12 @@ theorem Rev.trans {m m1 m2 : Mach} {s1 s2 : List RStep} (h1 : Rev m m1 s1) (h2 :
   ctx := by rw [h2.ctx, h1.ctx]
   wf := fun w => h2.wf (h1.wf w)
   fr := h1.fr.trans h2.fr
+  heapMeta := fun h => by rw [h2.heapMeta (by rw [h1.ctx]; exact h), h1.heapMeta h]
 
 /-- a change of `out` / `aboutToStop` only -/
 theorem Rev.of_ghost (m : Mach) (o : List Char) (b : Bool) : Rev m { m with out := o, aboutToStop := b } [] :=
   ⟨fun _ h => by simpa using h, id, by simp, rfl, rfl, fun w => ⟨w.ds, w.rs, w.ls, w.ss⟩,
-   ⟨rfl, rfl, rfl, rfl, rfl, rfl, rfl, fun S _ => by simp; omega⟩⟩
+   ⟨rfl, rfl, rfl, rfl, rfl, rfl, rfl, fun S _ => by simp; omega⟩, fun _ => rfl⟩
 
 theorem ex_refl (m : Mach) : ∃ seg, Rev m m seg := ⟨[], Rev.refl m⟩
 
@@ -118,7 +121,8 @@ theorem logStep_nolog (m : Mach) (s : RStep) (h : m.log = none) : (m.logStep s).
 theorem Rev.mk1 (m m' : Mach) (s : RStep)
     (hlog : m'.log = (m.logStep s).log) (hs : isSetIp s = false)
     (hundo : undoC m'.core s = (.ok (), m.core)) (hctx : m'.ctx = m.ctx)
-    (hwf : WF m → WF m') (hfr : Fr m m') : Rev m m' [s] where
+    (hwf : WF m → WF m') (hfr : Fr m m')
+    (hheap : m.ctx.mode = .metaEval → m'.heap = m.heap := by intro _; rfl) : Rev m m' [s] where
   log := fun ℓ h => by rw [hlog, logStep_log m s ℓ h]; rfl
   nolog := fun h => by rw [hlog, logStep_nolog m s h]
   noSetIp := by simp [hs]
@@ -126,6 +130,7 @@ theorem Rev.mk1 (m m' : Mach) (s : RStep)
   ctx := hctx
   wf := hwf
   fr := hfr
+  heapMeta := hheap
 
 /-! ### primitives (total form: whatever the outcome) -/
 
@@ -312,8 +317,10 @@ theorem swapCellRef_rev (m : Mach) (idx : Nat) (v : Cell) : ∃ seg, Rev m (m.sw
         · simp [List.getElem?_eq_none h] at hget
       have hold : m.heap[idx] = old := by
         rw [List.getElem?_eq_getElem hlt] at hget; exact Option.some.inj hget
+      rename_i hmode _
       refine ⟨_, Rev.mk1 m _ (.swapRef idx old) rfl rfl ?_ rfl (fun w => ⟨w.ds, w.rs, w.ls, w.ss⟩)
-        ⟨rfl, rfl, rfl, rfl, rfl, rfl, by simp, fun S _ => by simp; omega⟩⟩
+        ⟨rfl, rfl, rfl, rfl, rfl, rfl, by simp, fun S _ => by simp; omega⟩
+        (fun hm => absurd (by simp [hm]) hmode)⟩
       simp [undoC, core, hlt, ← hold]
     · exact ex_refl m
 
